@@ -280,11 +280,18 @@ func vrfC11ServerScript(h *vrfSrv, rng *rand.Rand, d *vrfC11Desc) {
 		if conn, _, _ := h.view(0); !filled && conn > 0 {
 			d.note("conn-probe: connection window not exhausted (%d left)", conn)
 		} else if !h.dead {
-			st := h.open(nextID, -1, false, true)
+			// one time in three the excess goes to a stream the client has ended already (its DATA
+			// is not delivered to any body and still counts against the connection window)
+			ended := rng.IntN(3) == 0
+			st := h.open(nextID, -1, ended, true)
 			nextID += 2
 			used = append(used, st)
 			if !h.quiescent() {
 				return
+			}
+			if ended {
+				st.taint = "after-end-stream"
+				h.R.Event("server_conn_probe_excess_on_ended_stream", 1)
 			}
 			conn, sw, mf := h.view(st.id)
 			smp, ok := h.sample()
